@@ -21,6 +21,7 @@ type Thread struct {
 	desc    string
 	daemon  bool
 	name    string
+	vc      vclock // race detection: vector clock
 }
 
 type waiter struct {
@@ -50,6 +51,7 @@ func (ex *Exec) spawn(fr *Frame, fn Value, args []Value, pos token.Pos) {
 	th := &Thread{id: len(ex.threads), resume: make(chan struct{}, 1), name: fmt.Sprintf("g%d@%s", len(ex.threads), ex.posOf(fr, pos))}
 	ex.threads = append(ex.threads, th)
 	ex.res.States++
+	ex.syncSpawn(ex.cur, th)
 	go func() {
 		<-th.resume
 		defer func() {
@@ -336,6 +338,16 @@ func (ex *Exec) tryRecv(c *Chan) (v Value, ok bool, done bool) {
 }
 
 func (ex *Exec) chanSend(fr *Frame, cv, v Value, pos token.Pos) {
+	if ex.cfg.Races {
+		if c := ex.chanOf(cv); c != nil {
+			ex.syncOn(c)
+			defer ex.syncOn(c)
+		}
+	}
+	ex.chanSend0(fr, cv, v, pos)
+}
+
+func (ex *Exec) chanSend0(fr *Frame, cv, v Value, pos token.Pos) {
 	c := ex.chanOf(cv)
 	ex.schedule("send")
 	if c == nil {
@@ -365,6 +377,16 @@ func (ex *Exec) throwMsg(fr *Frame, pos token.Pos, msg string) {
 }
 
 func (ex *Exec) chanRecv(fr *Frame, cv Value, commaOk bool, pos token.Pos) Value {
+	if ex.cfg.Races {
+		if c := ex.chanOf(cv); c != nil {
+			ex.syncOn(c)
+			defer ex.syncOn(c)
+		}
+	}
+	return ex.chanRecv0(fr, cv, commaOk, pos)
+}
+
+func (ex *Exec) chanRecv0(fr *Frame, cv Value, commaOk bool, pos token.Pos) Value {
 	c := ex.chanOf(cv)
 	ex.schedule("recv")
 	var v Value
@@ -392,6 +414,11 @@ func (ex *Exec) chanRecv(fr *Frame, cv Value, commaOk bool, pos token.Pos) Value
 }
 
 func (ex *Exec) chanClose(fr *Frame, cv Value, pos token.Pos) {
+	if ex.cfg.Races {
+		if c := ex.chanOf(cv); c != nil {
+			ex.syncOn(c)
+		}
+	}
 	c := ex.chanOf(cv)
 	ex.schedule("close")
 	if c == nil {
@@ -404,6 +431,30 @@ func (ex *Exec) chanClose(fr *Frame, cv Value, pos token.Pos) {
 }
 
 func (ex *Exec) doSelect(fr *Frame, instr *ssa.Select) Value {
+	if !ex.cfg.Races {
+		return ex.doSelect0(fr, instr)
+	}
+	for _, st := range instr.States {
+		if st.Dir == types.SendOnly {
+			if c := ex.chanOf(fr.get(st.Chan)); c != nil {
+				ex.syncOn(c)
+			}
+		}
+	}
+	r := ex.doSelect0(fr, instr)
+	if t, ok := r.(Tuple); ok && len(t) > 0 {
+		if idx, ok := t[0].(*Term); ok && idx.IsConst() {
+			if i := int(int64(idx.val)); i >= 0 && i < len(instr.States) {
+				if c := ex.chanOf(fr.get(instr.States[i].Chan)); c != nil {
+					ex.syncOn(c)
+				}
+			}
+		}
+	}
+	return r
+}
+
+func (ex *Exec) doSelect0(fr *Frame, instr *ssa.Select) Value {
 	ex.schedule("select")
 	type scase struct {
 		c    *Chan
@@ -517,6 +568,3 @@ func (ex *Exec) doSelect(fr *Frame, instr *ssa.Select) Value {
 
 // ---- data-race bookkeeping hooks (no-ops unless enabled) ----
 
-func (ex *Exec) noteWrite(fr *Frame, p *Value)    {}
-func (ex *Exec) noteRead(fr *Frame, p *Value)     {}
-func (ex *Exec) noteMapWrite(fr *Frame, m *MapV) {}
